@@ -160,6 +160,12 @@ def run(chk):
             checks.append(("cdist-fn-same-object", meta, core.call_real(lambda: np.asarray(ds.cdist(xs, xs)))))
             ops.append({"op": "cdist_mat", "as": xs, "bs": xs, "metric": "lev"})
             checks.append(("cdist-fn-equal-copy", meta, core.call_real(lambda: np.asarray(ds.cdist(xs, list(xs))))))
+        # keyword arguments reach the DEFAULT metric too (python-Levenshtein's distance takes weights=(insertion, deletion, substitution))
+        if len(xs) >= 2 and _ % 4 == 0:
+            ops.append({"op": "pdist_vec", "xs": xs, "metric": "wlev", "wi": 1, "wd": 4, "ws": 2})
+            checks.append(("pdist-fn-default-metric-kwargs", meta, core.call_real(lambda: np.asarray(ds.pdist(xs, weights=(1, 4, 2))))))
+            ops.append({"op": "cdist_mat", "as": xs, "bs": ys, "metric": "wlev", "wi": 3, "wd": 1, "ws": 2})
+            checks.append(("cdist-fn-default-metric-kwargs", meta, core.call_real(lambda: np.asarray(ds.cdist(xs, ys, weights=(3, 1, 2))))))
         # default metric of the helpers is Levenshtein
         ops.append({"op": "pdist_loop", "xs": xs, "metric": "lev"})
         checks.append(("pdist-fn-default", meta, core.call_real(lambda: np.asarray(ds.pdist(xs)))))
